@@ -14,6 +14,7 @@ Ids2_6 == {"a", "b", "c", "d", "e", "f"}
 \* DF = 3, D = 3: a,b,c share two digits, d,e one with them, f alone
 U3 == ("a" :> <<0, 0, 0>>) @@ ("b" :> <<0, 0, 1>>) @@ ("c" :> <<0, 0, 2>>) @@
       ("d" :> <<0, 1, 0>>) @@ ("e" :> <<0, 2, 2>>) @@ ("f" :> <<2, 1, 0>>)
+Ids3_3 == {"a", "b", "d"}
 Ids3_4 == {"a", "b", "d", "f"}
 Ids3_5 == {"a", "b", "c", "d", "f"}
 Ids3_6 == {"a", "b", "c", "d", "e", "f"}
